@@ -1,18 +1,24 @@
 #!/bin/sh
-# Re-verify every stored seeded change against the current checks; writes seeded/REPORT.md
+# Re-verify every stored seeded change against the current checks and /repo head; writes seeded/REPORT.md
+# usage: tools/recheck_all.sh [parallel jobs, default 3]
 cd "$(dirname "$0")/.." || exit 2
+jobs=${1:-3}
+tmp=$(mktemp -d /tmp/recheck_XXXX)
+ls seeded | grep '^C[0-9][0-9]-' | xargs -P "$jobs" -I{} sh -c 'tools/recheck_seeded.sh {} > '"$tmp"'/{}.log 2>&1'
 out=seeded/REPORT.md
-echo "# Seeded changes re-checked against the current checks (quick tier)" > $out
+echo "# Seeded changes re-checked against the current checks (quick tier) and the current /repo head" > $out
 echo "" >> $out
 echo "| seeded change | demo fails with / passes without | repo tests with change | detected by (exit 1) |" >> $out
 echo "|---|---|---|---|" >> $out
-for d in seeded/C*; do
-  name=$(basename $d)
-  id=${name%%-*}
-  res=$(tools/recheck_seeded.sh $name 2>&1 | grep -v "^WARNING")
+for name in $(ls seeded | grep '^C[0-9][0-9]-'); do
+  res=$(grep -v "^WARNING" $tmp/$name.log)
   demo=$(echo "$res" | grep -o "demo without=[0-9]* with=[0-9]*" | head -1)
   tests=$(echo "$res" | grep -o "tests: [^;]*" | head -1)
   det=$(echo "$res" | grep "^check" | grep "exit 1" | awk '{print $2}' | tr '\n' ' ')
+  napply=$(echo "$res" | grep -c "DOES NOT APPLY")
+  if [ "$napply" != "0" ]; then det="PATCH DOES NOT APPLY TO THE CURRENT HEAD"; fi
   echo "| $name | $demo | $tests | ${det:-NOT DETECTED} |" >> $out
 done
+rm -rf $tmp
 grep -c "NOT DETECTED" $out
+grep "DOES NOT APPLY" $out | cut -c1-60
